@@ -328,6 +328,35 @@ class AsyncSrcAsend(AsyncSrc):
         return await self.__anext__()
 
 
+class _FutureLikeStep:
+    """What ``AsyncSrcFuture.__anext__`` hands out: an awaitable that is not a coroutine.
+
+    Like a hand-written future, every call of ``__await__`` starts a fresh run of the step.
+    The protocol calls ``__await__`` once per ``await``; a relay that calls it again (for
+    example once per resumption) restarts the step, which is reported in ``CTX.foreign``.
+    """
+
+    __slots__ = ("src", "awaits")
+
+    def __init__(self, src: "AsyncSrcFuture"):
+        self.src = src
+        self.awaits = 0
+
+    def __await__(self):
+        self.awaits += 1
+        if self.awaits > 1:
+            CTX.foreign.append(f"awaitable of source {self.src.st.sid} restarted: __await__ called {self.awaits} times "
+                               f"for one await")
+        return (yield from AsyncSrc.__anext__(self.src).__await__())
+
+
+class AsyncSrcFuture(AsyncSrc):
+    """Class based async iterator whose ``__anext__`` returns a future-like awaitable object."""
+
+    def __anext__(self) -> Any:  # type: ignore[override]
+        return _FutureLikeStep(self)
+
+
 async def _async_gen(st: SrcState):
     try:
         while True:
@@ -353,7 +382,8 @@ async def _async_gen(st: SrcState):
 
 
 FLAVOURS_SYNC = ("list", "tuple", "getitem_seq", "sync_iter", "sync_gen")
-FLAVOURS_ASYNC = ("async_gen", "async_class", "async_class_bare", "async_class_full", "async_class_asend")
+FLAVOURS_ASYNC = ("async_gen", "async_class", "async_class_bare", "async_class_full", "async_class_asend",
+                  "async_class_future")
 FLAVOURS = FLAVOURS_SYNC + FLAVOURS_ASYNC
 
 
@@ -380,6 +410,8 @@ def make_source(st: SrcState, flavour: str) -> Any:
         return AsyncSrcFull(st)
     if flavour == "async_class_asend":
         return AsyncSrcAsend(st)
+    if flavour == "async_class_future":
+        return AsyncSrcFuture(st)
     raise ValueError(flavour)
 
 
